@@ -2,6 +2,7 @@ import IstioModel.Common.Wire
 import IstioModel.C01.Model
 import IstioModel.C01.Narrow
 import IstioModel.C01.Connection
+import IstioModel.C01.Workload
 
 /-! Line-protocol driver for C01, stream `needs` (see harness/c01/needs.go for the grammar). -/
 namespace IstioModel.C01
@@ -154,6 +155,9 @@ def stepD (d : DState) (toks : List String) : DState × String :=
     let sentOther := sent.filter (fun t => !known.contains t)
     let j (l : List String) : String := if l.isEmpty then "-" else ",".intercalate l
     (d, s!"called={j known}+{showSet res.1.2} sent={j sentKnown}+{showSet sentOther} keys={if known.isEmpty && res.1.2.isEmpty then "-" else showKeys res.2.2}")
+  | ["wreq", a, f, rs, ks] =>
+    let r := parseReq [f, rs, ks, "-"]
+    (d, s!"wds={boolTok (wdsNeedsPush r (tokBool a))} wauth={boolTok (wauthNeedsPush r)}")
   | ["merge", f1, r1, k1, w1, f2, r2, k2, w2] =>
     let m := (parseReq [f1, r1, k1, w1]).merge (parseReq [f2, r2, k2, w2])
     (d, s!"merged={showReqSorted m} {showDecisions d.proxy m}")
